@@ -113,6 +113,9 @@ class Len(V):
     def __init__(self, axis, plus=0):
         self.axis, self.plus = axis, plus
 
+    def __repr__(self):
+        return f"len({self.axis})" + (f"+{self.plus}" if self.plus else '')
+
 
 class Bool(V):
     def __init__(self, v):
@@ -231,7 +234,7 @@ class Interp:
             if n.attr in self.F:
                 return Other('method:' + n.attr)
             return Other(f"{o.what}.{n.attr}")
-        if isinstance(o, SliceIn) and n.attr in ('start', 'stop', 'step'):
+        if isinstance(o, (SliceIn, SliceOut)) and n.attr in ('start', 'stop', 'step'):
             return getattr(o, n.attr)
         if isinstance(o, Other):
             return Other(f"{o.d}.{n.attr}")
@@ -379,6 +382,16 @@ class Interp:
         # lengths of tuples
         if isinstance(a, Const) and isinstance(b, Const) is False and isinstance(a.v, int) and isinstance(b, Const):
             pass
+        # two user-given positions of one axis (start and stop of one slice): the three orderings are explored, and the
+        # one chosen is remembered for the path (the inclusive stop makes start == stop a one-row selection)
+        if isinstance(a, Idx) and isinstance(b, Idx) and a.kind == 'U1' and b.kind == 'U1' and a.src != b.src:
+            memo = self.selfobj.attrs.setdefault('__orderings__', {})
+            key = (a.src, b.src) if a.src < b.src else (b.src, a.src)
+            if key not in memo:
+                memo[key] = ('lt', 'eq', 'gt')[self.choose(3, 'ordering of two positions')]
+            rel = memo[key] if key == (a.src, b.src) else {'lt': 'gt', 'eq': 'eq', 'gt': 'lt'}[memo[key]]
+            return {'lt': rel == 'lt', 'le': rel in ('lt', 'eq'), 'gt': rel == 'gt', 'ge': rel in ('gt', 'eq'),
+                    'eq': rel == 'eq', 'ne': rel != 'eq'}[opn]
         # normalise to x (op) bound with x the index
         if isinstance(b, (Idx, Step)) and not isinstance(a, (Idx, Step)):
             flip = {'lt': 'gt', 'le': 'ge', 'gt': 'lt', 'ge': 'le', 'eq': 'eq', 'ne': 'ne'}
@@ -633,7 +646,8 @@ def selector_forms():
             for step in ('none', 'int'):
                 sl = SliceIn(kinds[st]('item.start'), kinds[sp]('item.stop'), NONE if step == 'none' else Step(False, 'item.step'))
                 forms.append((f"slice({st},{sp},{step})", sl,
-                              ('sel', ('item.start' if st != 'none' else None, 'item.stop' if sp != 'none' else None, False), None)))
+                              ('sel', ('item.start' if st != 'none' else None, 'item.stop' if sp != 'none' else None, False,
+                                       None if step == 'none' else 'item.step'), None)))
     # a 1-tuple holding a slice is not in the documented grammar: it may be rejected, but if it is accepted it must
     # mean the rows of that slice
     forms.append(("(slice,)", Tup([SliceIn(U1('item[0].start'), LBL('item[0].stop'), NONE)]),
@@ -646,10 +660,10 @@ def selector_forms():
         forms.append((f"(slice,{a})", Tup([SliceIn(U1('item[0].start'), LBL('item[0].stop'), NONE), kinds[a]('item[1]')]),
                       ('sel', ('item[0].start', 'item[0].stop', False), ('item[1]', 'item[1]', True))))
         forms.append((f"({a},slice)", Tup([kinds[a]('item[0]'), SliceIn(LBL('item[1].start'), U1('item[1].stop'), Step(False, 'item[1].step'))]),
-                      ('sel', ('item[0]', 'item[0]', True), ('item[1].start', 'item[1].stop', False))))
+                      ('sel', ('item[0]', 'item[0]', True), ('item[1].start', 'item[1].stop', False, 'item[1].step'))))
     forms.append(("(slice,slice)", Tup([SliceIn(U1('item[0].start'), U1('item[0].stop'), Step(False, 'item[0].step')),
                                         SliceIn(LBL('item[1].start'), LBL('item[1].stop'), NONE)]),
-                  ('sel', ('item[0].start', 'item[0].stop', False), ('item[1].start', 'item[1].stop', False))))
+                  ('sel', ('item[0].start', 'item[0].stop', False, 'item[0].step'), ('item[1].start', 'item[1].stop', False))))
     forms.append(("(open slice, open slice)", Tup([SliceIn(NONE, NONE, NONE), SliceIn(NONE, U1('item[1].stop'), NONE)]),
                   ('sel', (None, None, False), (None, 'item[1].stop', False))))
     forms.append(("3-tuple", Tup([U1('item[0]'), U1('item[1]'), U1('item[2]')]), ('reject',)))
@@ -668,11 +682,15 @@ def check_axis(sl, spec, axis, problems, form, check_step=True):
     if not isinstance(sl, SliceOut):
         problems.append((form, 'shape', f"{axis} selector is {sl!r}, not a slice"))
         return
+    def open_stop(v):
+        # an explicit stop at the edge of the plate selects the same wells as an open one
+        return isinstance(v, NoneV) or (isinstance(v, Len) and v.axis == axis and v.plus == 0)
     if spec is None:
-        if not (isinstance(sl.start, NoneV) and isinstance(sl.stop, NoneV) and isinstance(sl.step, NoneV)):
+        if not (isinstance(sl.start, NoneV) and open_stop(sl.stop) and isinstance(sl.step, NoneV)):
             problems.append((form, 'extent', f"{axis} axis should be selected completely, got {sl!r}"))
         return
-    ssrc, esrc, single = spec
+    ssrc, esrc, single = spec[:3]
+    stepsrc = spec[3] if len(spec) > 3 else None
     # start
     if ssrc is None:
         if not isinstance(sl.start, NoneV):
@@ -689,7 +707,7 @@ def check_axis(sl, spec, axis, problems, form, check_step=True):
                 problems.append((form, 'source', f"{axis} start comes from {s.src}, expected {ssrc}"))
     # stop
     if esrc is None:
-        if not isinstance(sl.stop, NoneV):
+        if not open_stop(sl.stop):
             problems.append((form, 'stop', f"{axis} stop should be open, got {sl.stop!r}"))
     else:
         e = sl.stop
@@ -708,11 +726,14 @@ def check_axis(sl, spec, axis, problems, form, check_step=True):
         if not (isinstance(sl.step, NoneV) or (isinstance(sl.step, Step) and sl.step.positive)):
             problems.append((form, 'step', f"{axis} step {sl.step!r} is not known to be positive (zero or negative "
                                            f"steps select other wells or none)"))
+    if check_step and stepsrc is not None and not (isinstance(sl.step, Step) and sl.step.src == stepsrc):
+        problems.append((form, 'step', f"{axis} step given by the caller ({stepsrc}) is not the step of the selection "
+                                       f"(got {sl.step!r}): every well of the range is addressed instead of every n-th"))
     if single and not isinstance(sl.step, NoneV):
         problems.append((form, 'step', f"{axis} single index has a step {sl.step!r}"))
 
 
-def explore(slicer_cls: ast.ClassDef, max_paths=20000):
+def explore(slicer_cls: ast.ClassDef, max_paths=20000, post=None):
     """Explore Slicer.__init__ for every selector form; returns statistics and problems."""
     F = {m.name: m for m in slicer_cls.body if isinstance(m, ast.FunctionDef)}
     if '__init__' not in F:
@@ -729,6 +750,7 @@ def explore(slicer_cls: ast.ClassDef, max_paths=20000):
         fpaths = 0
         accepted = 0
         rejected_types = set()
+        orderings = {}          # (pair) -> {ordering: accepted paths}
         while stack:
             prefix = stack.pop()
             selfobj = Obj('Slicer')
@@ -740,6 +762,14 @@ def explore(slicer_cls: ast.ClassDef, max_paths=20000):
             outcome = None
             try:
                 it.run(init.body)
+                if post is not None:
+                    # the statements of the subclass constructor that follow the call of this constructor
+                    pname, iname, body = post
+                    plate = Obj('Plate')
+                    plate.attrs.update({'n_rows': Len('row'), 'n_columns': Len('col'), 'row_names': Labels('row'),
+                                        'column_names': Labels('col'), 'wells': Other('ndarray')})
+                    it.env.update({'self': selfobj, pname: plate, iname: env[params[4]]})
+                    it.run(body)
                 outcome = 'normal'
             except Raised as r:
                 outcome = 'raise ' + r.t
@@ -749,6 +779,12 @@ def explore(slicer_cls: ast.ClassDef, max_paths=20000):
                 outcome = 'normal'
             fpaths += 1
             stats['paths'] += 1
+            memo_o = selfobj.attrs.get('__orderings__')
+            if isinstance(memo_o, dict):
+                for pair, rel in memo_o.items():
+                    d = orderings.setdefault(pair, {'lt': 0, 'eq': 0, 'gt': 0})
+                    if outcome == 'normal':
+                        d[rel] += 1
             if stats['paths'] > max_paths:
                 raise AnalysisError('index typing: more than %d paths' % max_paths)
             if outcome == 'normal':
@@ -785,6 +821,11 @@ def explore(slicer_cls: ast.ClassDef, max_paths=20000):
             for i in range(len(prefix), len(it.choices)):
                 for alt in range(1, arity[i] if i < len(arity) else 2):
                     stack.append(it.choices[:i] + [alt])
+        if expect[0] == 'sel':
+            for pair, d in orderings.items():
+                for rel, what in (('lt', 'start before stop'), ('eq', 'start equal to stop (stop is inclusive: one row / column)')):
+                    if d[rel] == 0 and (d['lt'] or d['eq'] or d['gt'] or True):
+                        problems.append((name, 'never-accepted', f"a slice with {what} is rejected on every path ({pair[0]} vs {pair[1]})"))
         if expect[0] not in ('reject', 'optional') and accepted == 0:
             problems.append((name, 'never-accepted', 'no path accepts this documented selector form'))
         stats['per_form'][name] = {'paths': fpaths, 'accepted': accepted}
